@@ -11,6 +11,22 @@ CHECKS = {
    text="TLC enumerates every one-step behaviour of spec/Alg.tla restricted to the TT-tensor arithmetic (all operand pairs of order<=3 over sizes {1,2,3} with small ranks, all broadcast alignments, 12 scalar kinds, real/complex, canonical order-4/5 profiles), checks on the model that the core-level construction equals the dense definition and obeys the rank law, and every enumerated state is executed on the implementation and compared bit-for-bit (dense value by the harness's own contraction, ranks, shape, dtype, full()).",
    note="Small-scope: orders<=3 exhaustively, 4-5 by canonical profiles; integer fills (outputs are polynomials in the core entries). Trusted: TLC, the harness's tensordot contraction, torch arithmetic on small integers.",
    technique="TLA+ dense/TT-level semantics, TLC exhaustive enumeration, every state replayed into torchtt and compared exactly"),
+ "C04": dict(level=MC, design="§6 C04",
+   text="TLC enumerates every one-step behaviour of spec/Alg.tla restricted to the operator algebra (A@x, x@A, A@B, A@dense with 0..3 batch modes, transpose, + - *, scalar operations, kron) over all rectangular operators of order 1-2 with mode sizes in {1,2,3} and canonical order-3/4 operators with pairwise distinct row/column/inner sizes and ranks; TLC checks that the core-level contraction equals the dense operator expression and the product-rank law; every state is executed on the implementation and compared bit-for-bit.",
+   note="Small scope (order<=2 exhaustive, 3-4 canonical), integer fills. Trusted: TLC, the harness's own contraction and mode un-interleaving.",
+   technique="TLA+ dense/TT-level operator semantics, TLC exhaustive enumeration, every state replayed into torchtt and compared exactly"),
+ "C07": dict(level=MC, design="§6 C07",
+   text="TLC computes the exact Gaussian-integer value of norm^2, sum (all modes / every subset), dot (full / every axis subset, second argument conjugated) and bilinear_form for every enumerated structure (tensors order<=3, operators order<=2, canonical order-4/5, real and complex); each state is executed with autograd tracking off and on and compared exactly (QR-based norm within roundoff); result kind and shape are compared with the dense reduction.",
+   note="Small scope, integer fills; the untracked norm goes through QR and is compared within 1e-10 relative.",
+   technique="TLA+ dense reductions over Gaussian integers, TLC enumeration, replay into torchtt with both autograd states"),
+ "C08": dict(level=MC, design="§6 C08",
+   text="spec/TTOps.tla transcribes Python/numpy index semantics (negative ints, slice normalisation with steps, None, Ellipsis expansion, short tuples) over dense values; TLC enumerates index expressions per tensor (with singleton modes) and computes the resulting shape and every entry; the same Python index object is applied to the real TT and compared for kind (scalar vs TT), mode sizes and all values; apply_mask likewise.",
+   note="Small scope; per-mode item sets are fixed lists (rich for order<=2, lean for order>=3); empty slices and negative steps not enumerated.",
+   technique="TLA+ transcription of index-expression semantics, TLC enumeration, same index object replayed on torchtt"),
+ "C09": dict(level=MC, design="§6 C09",
+   text="Dense definitions of cat, constant / diagonal padding, diag (both directions), mode products, to_ttm, conj, clone in spec/TTOps.tla; TLC enumerates operands, axes, width vectors, fill values and mode subsets, checks the core-level concatenation against the dense definition, and every state is executed on the implementation and compared exactly.",
+   note="Small scope (order<=2 exhaustive in quick, <=3 thorough, canonical order 4); operator padding only when every mode is padded.",
+   technique="TLA+ dense semantics, TLC enumeration, replay into torchtt with exact comparison"),
 }
 
 NA = {}
